@@ -1102,6 +1102,10 @@ class Machine(object):
         i = self.eval(e["i"], env)
         if isinstance(base, Term) or isinstance(i, Term):
             return Term("index", base, i)
+        if hasattr(base, "kind") and hasattr(base, "extra") and getattr(self, "tok_index", None) is not None:
+            if isinstance(i, int) and i >= base.length:
+                raise Panic("index out of bounds: %d of %d" % (i, base.length))
+            return self.tok_index(base, i)
         items = base.items if isinstance(base, PyVec) else base
         if isinstance(i, Adt) and i.path.startswith("std::ops::Range"):
             lo = i.fields.get("start", 0)
